@@ -253,6 +253,53 @@ pub async fn run_case(client: &Client, addr: std::net::SocketAddr, certs: &Certs
             }
         }
     }
+    // an intruding requestor: a raw peer registers as a requestor of the topic and sends requests that
+    // already carry a `cid` header naming every other requestor stream of the topic, with the req_id of
+    // a call that is pending on a library requestor (its first: 0; never answered).  The server routes
+    // by its own tag, so that call must time out, not return the reply made for the intruder's request
+    {
+        let b = client
+            .requestor(&topic)
+            .with_request_encoder(StringCodec)
+            .with_reply_decoder(StringCodec)
+            .with_request_timeout(Duration::from_millis(timeout_ms));
+        let victim = match b {
+            Ok(b) => b.open().await.ok(),
+            Err(_) => None,
+        };
+        let intruder = RawPeer::connect_trusted(addr, certs).await.ok();
+        if let (Some(mut victim), Some(intruder)) = (victim, intruder) {
+            let s_v = streams + 40;
+            if let Ok(mut st) = intruder.open().await {
+                let (ns, tp) = topic[1..].split_once('/').unwrap();
+                let _ = st.send(Frame::RegisterRequestor(selium_protocol::RequestorPayload { topic: TopicName::create(ns, tp).unwrap() })).await;
+                let registered = matches!(tokio::time::timeout(Duration::from_millis(3000), st.next()).await, Ok(Some(Ok(Frame::Ok))));
+                let pv = format!("rq-{}-5-0|never", s_v);
+                let pv2 = pv.clone();
+                let call = tokio::spawn(async move {
+                    let t0 = Instant::now();
+                    let r = victim.request(pv2).await;
+                    (outcome(r), t0.elapsed().as_millis())
+                });
+                tokio::time::sleep(Duration::from_millis(80)).await;
+                if registered {
+                    for c in 0..(streams as u64 + 8) {
+                        let mut h = std::collections::HashMap::new();
+                        h.insert("req_id".to_string(), "0".to_string());
+                        h.insert("cid".to_string(), format!("{}", c));
+                        let f = Frame::Message(MessagePayload { headers: Some(h), message: format!("rq-{}-5-{}|quick", s_v + 1, c).into() });
+                        let _ = tokio::time::timeout(Duration::from_millis(500), st.send(f)).await;
+                    }
+                }
+                if let Ok((rv, mv)) = call.await {
+                    let _ = writeln!(out, "call {} 500 never {} -> {} {}", s_v, pv, rv, mv);
+                }
+                if !registered {
+                    let _ = writeln!(out, "note intruder_not_registered");
+                }
+            }
+        }
+    }
     // after a recovered outage: two clones of one requestor, each recovered on its own, have calls
     // in flight at the same time (the first answered after the second): each gets its own reply
     if let Ok(oc) = connect_client(addr, certs, BackoffStrategy::constant().with_max_attempts(3).with_step(Duration::from_millis(10))).await {
@@ -325,7 +372,7 @@ pub fn main(args: &[String]) {
             if i > 0 && i % 8 == 0 {
                 client = connect_client(addr, &certs, BackoffStrategy::constant().with_max_attempts(0)).await.expect("client");
             }
-            run_case(&client, addr, &certs, seed, i, &mut out).await;
+            crate::guard_case!(out, 300, run_case(&client, addr, &certs, seed, i, &mut out));
         }
         let _ = std::fs::remove_dir_all(&dir);
         out
